@@ -12,7 +12,7 @@ CHECKS = {
    "DESIGN.md 6/C11"),
  "C14": ("inproc", "exploration",
    "reference-model monitor over exhaustive/random lookups + end-to-end origin observation",
-   "Exhaustive over ordered tuples of <=3 location shapes (2 hosts x 3 prefixes), name subsets and 15 queries against an independent routing predicate (any member of the best class accepted), sampled 4-tuples and random larger universes with duplicate names and prefix lengths from 1 to 236 characters; then random configurations applied as reloads to a running server with one origin per location, incl. percent-encoded request URIs (matched as sent) and requests carrying X-Forwarded-Host / Forwarded headers that name another configured host: which origin saw the request, 5xx and no upstream contact when nothing matches; locations whose only prefix is the catch-all /; locations whose upstream has no server alive (the request fails, it is not handed to a less specific location).",
+   "Exhaustive over ordered tuples of <=3 location shapes (2 hosts x 3 prefixes), name subsets and 15 queries against an independent routing predicate (any member of the best class accepted), sampled 4-tuples and random larger universes with duplicate names and prefix lengths from 1 to 236 characters; then random configurations applied as reloads to a running server with one origin per location, incl. percent-encoded request URIs (matched as sent) and requests carrying X-Forwarded-Host / Forwarded headers that name another configured host: which origin saw the request, 5xx and no upstream contact when nothing matches; locations whose only prefix is the catch-all /; locations whose upstream has no server alive (the request fails, it is not handed to a less specific location); a second server with its own list; every second configuration applied under traffic with unchanged server lists and 40 decoy locations with rewrite rules.",
    "the reference predicate encodes the statement (class order prefix+host < prefix < host < none); ties inside a class are not judged",
    "DESIGN.md 6/C14"),
  "C04": ("inproc", "exploration",
@@ -47,7 +47,7 @@ CHECKS = {
    "DESIGN.md 6/C03"),
  "C13": ("inproc", "exploration",
    "decision-table monitor (reference table vs HTTPResponse.Fill and vs the running server) + compressor call counters (hook) + byte comparison with the best-compression profile",
-   "The table dimensions of the statement are enumerated completely at the Fill level (14 Accept-Encoding values incl. tokens that merely contain 'gzip' and weighted codings, 7 stored-variant subsets, 4 sizes around two thresholds, default/custom filter, 6 content types, direct and after Cacheable()) with random bodies per cell; end-to-end through servers with default and configured thresholds/filters (two of them with an 8-entry LRU over a store, earlier keys revisited after eviction; two reconfigured by a reload of the running server; text, repetitive and incompressible bodies; upstreams that answer gzip or br encoded themselves; lifetimes from 1 s to a day; hits on one stored version with one Accept-Encoding must always get the same encoding): compressor call counters around every hit (no per-request recompression) and around bursts of coalesced requests on cold compressible keys (exactly one gzip and one br run), stored variants byte-compared with the best-compression profile's output.",
+   "The table dimensions of the statement are enumerated completely at the Fill level (14 Accept-Encoding values incl. tokens that merely contain 'gzip' and weighted codings, 7 stored-variant subsets, 4 sizes around two thresholds, default/custom filter, 6 content types, direct and after Cacheable()) with random bodies per cell; end-to-end through servers with default and configured thresholds/filters (two of them with an 8-entry LRU over a store, earlier keys revisited after eviction; two reconfigured by a reload of the running server; text, repetitive and incompressible bodies; upstreams that answer gzip or br encoded themselves; lifetimes from 1 s to a day; hits on one stored version with one Accept-Encoding must always get the same encoding, over HTTP/1.1 and HTTP/1.0): compressor call counters around every hit (no per-request recompression) and around bursts of coalesced requests on cold compressible keys (exactly one gzip and one br run), stored variants byte-compared with the best-compression profile's output.",
    "where the raw length and the lengths pike can see straddle the threshold both outcomes are accepted; Accept-Encoding without q-values",
    "DESIGN.md 6/C13"),
  "C05": ("inproc", "exploration",
@@ -57,12 +57,12 @@ CHECKS = {
    "DESIGN.md 6/C05"),
  "C15": ("inproc", "exploration",
    "differential monitor: origin request log vs reference transformation of the client request; client response vs origin response + configured headers; second-client probe after conditional/Range requests",
-   "Eight locations (unchanged, the two documented rewrite forms, literal swap, a two-rule rewrite chain applied rule after rule, added request/response headers, added query parameters, upstream Accept-Encoding override); generated methods, bodies up to 1 MiB (also on GET), upstream statuses 200/201/404/500/503 on the pass-through methods, one location over an enableH2C upstream, multi-valued and credential headers, escaped paths, queries with repeated keys/escapes/value-less parameters; chunked request bodies; conditional (matching and non-matching ETag / Last-Modified, ETag mismatch with matching Last-Modified) and Range (first bytes, suffix, multi-range, If-Range) headers on cold, hit and hit-for-pass keys (also keys whose upstream turns cacheable during the period) against an http.ServeContent origin; after client A a plain client B must receive the full 200.",
+   "Eight locations (unchanged, the two documented rewrite forms, literal swap, a two-rule rewrite chain applied rule after rule, added request/response headers, added query parameters, upstream Accept-Encoding override); generated methods, bodies up to 1 MiB (also on GET), upstream statuses 200/201/404/500/503 on the pass-through methods, one location over an enableH2C upstream, an upstream answering after 11 s and a body uploaded over 11 s, multi-valued and credential headers, escaped paths, queries with repeated keys/escapes/value-less parameters; chunked request bodies; conditional (matching and non-matching ETag / Last-Modified, ETag mismatch with matching Last-Modified) and Range (first bytes, suffix, multi-range, If-Range) headers on cold, hit and hit-for-pass keys (also keys whose upstream turns cacheable during the period) against an http.ServeContent origin; after client A a plain client B must receive the full 200.",
    "not judged: malformed queries, If-Match/412, X-Forwarded-For/User-Agent, upstream Accept-Encoding when the client sent none, conditional headers on a cold uncacheable fetch, 304 for HEAD",
    "DESIGN.md 6/C15"),
  "C06": ("inproc", "exploration",
    "per-response self-identification oracle (origin echoes method/Host/URI into body and headers) under concurrent traffic with forced shard collisions and constant eviction; race detector + checkptr; dispatcher-level entry identity",
-   "220 near-identical keys (slash/digit/case/escape differences, queries differing in one byte or only by '?', five hosts incl. one with a port and one differing in case, GET vs HEAD, 1.8 kB URIs differing in the last byte, 60 keys forced into one shard via MemHash) on caches of size 8/24/64 and a store-backed one of 16, lifetime 1 s so that entries are also refetched after expiry, 32 concurrent clients, a quarter of the requests with X-Forwarded-Host/Forwarded/X-Original-Url headers, every resource with the same strong ETag and every seventh with a body of exactly 1500 bytes: every 2xx answer must echo exactly the requester's method, Host and URI; one million generated keys at the dispatcher level must resolve to pairwise distinct, stable entries.",
+   "220 near-identical keys (slash/digit/case/escape differences, queries differing in one byte or only by '?', five hosts incl. one with a port and one differing in case, GET vs HEAD, 1.8 kB URIs differing in the last byte, 60 keys forced into one shard via MemHash) on caches of size 8/24/64 and a store-backed one of 16, lifetime 1 s so that entries are also refetched after expiry, 32 concurrent clients, a quarter of the requests with X-Forwarded-Host/Forwarded/X-Original-Url headers, every resource with the same strong ETag and every seventh with a body of exactly 1500 bytes; the store-backed cache uses pike's badger store and is also asked for request targets with raw non-UTF-8 bytes: every 2xx answer must echo exactly the requester's method, Host and URI; one million generated keys at the dispatcher level must resolve to pairwise distinct, stable entries.",
    "the origin's echo is ground truth; evictions are observed through the eviction hook (tens of thousands per run)",
    "DESIGN.md 6/C06"),
  "C09": ("inproc", "exploration",
@@ -72,22 +72,22 @@ CHECKS = {
    "DESIGN.md 6/C09"),
  "C12": ("inproc", "exploration",
    "round-trip oracle with pike's, standard and independent (gzip CLI, python zlib, zstd CLI) decoders; crash/hang monitor in isolated child processes",
-   "pike's Gzip/Brotli at levels -1..12 plus out-of-range 99/-7 on lengths 0..64, powers of two +-1 up to 1 MiB and random lengths with random/text/runs/zero content; valid streams of all five formats from self-checked reference encoders (multi-member gzip, gzip headers with FNAME/FCOMMENT/FEXTRA/MTIME, brotli windows 2^10..2^24 with flushes, zstd CLI output and zstd streaming-encoder frames declaring windows 2^10..2^25, ratios beyond 200x for lz4 and far more for br/zst) must be restored exactly by pike's decoders; earlier results are kept and re-verified after later operations (no shared buffers); malformed streams (truncation incl. every offset of small streams, bit flips, header edits, random bytes, doubled streams) under a per-case watchdog in a child process, a known-good stream of the format being restored right after every second malformed one; snz and lz4 blocks of every length 0..4200; header edits over the first 14 bytes incl. zstd frames claiming a content size near 2^64.",
+   "pike's Gzip/Brotli at levels -1..12 plus out-of-range 99/-7 on lengths 0..64, powers of two +-1 up to 1 MiB and random lengths with random/text/runs/zero content; valid streams of all five formats from self-checked reference encoders (multi-member gzip, gzip headers with FNAME/FCOMMENT/FEXTRA/MTIME, brotli windows 2^10..2^24 with flushes, zstd CLI output and zstd streaming-encoder frames declaring windows 2^10..2^25, ratios beyond 200x for lz4 and far more for br/zst) must be restored exactly by pike's decoders; earlier results are kept and re-verified after later operations (no shared buffers); malformed streams (truncation incl. every offset of small streams, bit flips, header edits, random bytes, doubled streams) under a per-case watchdog in a child process, a known-good stream of the format being restored right after every second malformed one; snz and lz4 blocks of every length 0..4200; header edits over the first 14 bytes incl. zstd frames claiming a content size near 2^64; zstd streams with skippable frames and several data frames; 16 goroutines encoding and decoding at once.",
    "a malformed stream decoding to some bytes without error is accepted; survival + output validity stand in for memory safety of the third-party assembly decoders",
    "DESIGN.md 6/C12"),
  "C10": ("inproc", "fault_enumeration",
    "online monitor over client results + scripted store call log + hooked entry state, under per-call store fault injection",
-   "Every store call draws from {ok, not-found, error, delay, value truncated, random bytes, bit flip in header region / elsewhere, status field overwritten, empty} over histories of bursts, expiry, purge and eviction on a 16-entry cache with a healthy origin. Judged: always 200 with the key's intact body, hits only of still-valid versions, a memory-resident fresh hit never reads the store, an undecodable record yields an ordinary fetching miss, nobody stranded and no entry left fetching (hooked state at quiescence). Finally the configured store cannot be opened at all (badger directory below a regular file, redis nobody listens on): the cache serves memory-only and keeps its entries when the unchanged configuration is applied again. Garbled values that still decode are classified by the harness decoding them itself and only taint the key.",
+   "Every store call draws from {ok, not-found, error, delay, value truncated, random bytes, bit flip in header region / elsewhere, status field overwritten, empty} over histories of bursts, expiry, purge and eviction on a 16-entry cache with a healthy origin. Judged: always 200 with the key's intact body, hits only of still-valid versions, a memory-resident fresh hit never reads the store, an undecodable record yields an ordinary fetching miss, nobody stranded and no entry left fetching (hooked state at quiescence). Finally the configured store cannot be opened at all (badger directory below a regular file, redis nobody listens on): the cache serves memory-only and keeps its entries when the unchanged configuration is applied again; with the store going down after start-up, responses are cached memory-only and a purge still empties the memory. Garbled values that still decode are classified by the harness decoding them itself and only taint the key.",
    "well-formed-but-altered records cannot be detected without an integrity field (known finding class undetectable-corruption); a purge whose store delete failed is not judged afterwards",
    "DESIGN.md 6/C10"),
  "C08": ("proc", "fault_enumeration",
    "crash-point enumeration on the real binary (self-kill at named hook points, external SIGKILL, SIGTERM) + offline check of every post-restart answer against the origin's log under a controlled clock",
-   "Real pike (race build) on a badger store with a clock file holding an absolute virtual time (no verdict depends on how long anything takes; the creation bound of an entry is exact). Every second case uses an LRU of 32 entries for about 100 keys. Four incarnations per case on the same store: populate (8 keys sequentially, 48 in one concurrent burst) and SIGKILL at quiescence; concurrent writes, hits and purges with the crash armed at the n-th passage of one of 8 hook points (before/after publishing, after persisting, after a load, between LRU removal and store delete), or SIGKILL at a random moment, or SIGTERM; restart and probe every key in the same second, at mid-life, at the exact expiry second and one second later; kill again, move the clock past every expiry, restart and probe (first lookup after the restart). Each answer must be a byte-identical version of that key from the origin's log, hits only inside the original lifetime with Age continuing from the original fetch and without upstream contact, never a version whose purge completed, hit-for-pass only inside a marker's period; pike must come up after every stop.",
+   "Real pike (race build) on a badger store with a clock file holding an absolute virtual time (no verdict depends on how long anything takes; the creation bound of an entry is exact). Every second case uses an LRU of 32 entries for about 100 keys. Four incarnations per case on the same store: populate (8 keys sequentially, 48 in one concurrent burst) and SIGKILL at quiescence; concurrent writes, hits and purges with the crash armed at the n-th passage of one of 8 hook points (before/after publishing, after persisting, after a load, between LRU removal and store delete), or SIGKILL at a random moment, or SIGTERM; restart and probe every key in the same second, at mid-life, at the exact expiry second and one second later; in-process, responses whose origin sent its own Age must show an Age that does not fall when the memory is dropped and the record reloaded; kill again, move the clock past every expiry, restart and probe (first lookup after the restart). Each answer must be a byte-identical version of that key from the origin's log, hits only inside the original lifetime with Age continuing from the original fetch and without upstream contact, never a version whose purge completed, hit-for-pass only inside a marker's period; pike must come up after every stop.",
    "refetch is always allowed; SIGKILL does not model power loss; eviction/reload with an LRU smaller than the working set is exercised in-process by C04/C05/C07/C11 with scripted stores",
    "DESIGN.md 6/C08"),
  "C17": ("proc", "exploration",
    "independent closure predicate and per-field rules vs Validate; structural round-trip comparison through the real file client; probes against freshly started real processes",
-   "Generated configurations with names and free-text values that need YAML quoting: Validate must accept each valid one and reject each of 33 single injected defects (every dangling reference at first and last position, every malformed documented field); Write then Read must return the same configuration; accepted configurations (names with leading/trailing white space and store urls that cannot be opened included) are applied to fresh real pike processes and every server is probed: no 'cache dispatcher / upstream not found', no 'location not found' where the reference router finds one; two accepted configurations saved to a running instance in quick succession (the second, renaming everything the server refers to, while the first is still being applied) must leave the server resolving everything.",
+   "Generated configurations with names and free-text values that need YAML quoting: Validate must accept each valid one and reject each of 33 single injected defects (every dangling reference at first and last position, every malformed documented field); Write then Read must return the same configuration, also when the stored document was replaced from outside between two saves of the same configuration; accepted configurations (names with leading/trailing white space and store urls that cannot be opened included) are applied to fresh real pike processes and every server is probed: no 'cache dispatcher / upstream not found', no 'location not found' where the reference router finds one; two accepted configurations saved to a running instance in quick succession (the second, renaming everything the server refers to, while the first is still being applied; a third renaming only the upstream a location refers to) must leave the server resolving everything.",
    "documented field kinds only; the hostname rule is the validator's (RFC 952); duplicate names and sub-second durations are accepted by pike and not judged",
    "DESIGN.md 6/C17"),
  "C16": ("proc", "exploration",
@@ -97,7 +97,7 @@ CHECKS = {
    "DESIGN.md 6/C16"),
  "C19": ("inproc", "fault_enumeration",
    "ground-truth monitor: the driver's up/down vector vs per-origin request counters, with settling observed through health-check activity at the origins",
-   "14 (thorough 100) upstream groups in one in-process pike whose unchanged configuration is re-applied before odd phases, plus two groups behind the real binary (eight round-robin primaries and primary+backup, all down / all up alternately: more than eight transitions to sick, no alarm URL), covering every primary/backup mix of 1-4 servers, five policies, health checks by path (/ping, /) and by port; in a quarter of the groups 'down' means answering the health check with 503 while still listening; origins are really stopped and restarted on the same port in phases (all down, primaries down, first down, random, recovery). After each change the driver waits for two health-check rounds observed after the change on a live server (11.5 s if none), then 12 sequential requests per group must go to healthy primaries, to healthy backups only when no primary is healthy, be balanced within 1 under round-robin, or fail with a 5xx within 2 s when nothing is healthy (a slow answer is retried before it is judged); traffic must resume after recovery. Finally, with everything healthy, single requests fail for reasons that are not the server's (client gives up after 150 ms, location proxy timeout of 1.5 s) and one slow request is held on every primary of groups with backups: the following 12 requests are judged by the same rule.",
+   "14 (thorough 100) upstream groups in one in-process pike whose unchanged configuration is re-applied before odd phases, plus two groups behind the real binary (eight round-robin primaries and primary+backup, all down / all up alternately: more than eight transitions to sick, no alarm URL), covering every primary/backup mix of 1-4 servers, five policies, health checks by path (/ping, /) and by port; in a quarter of the groups 'down' means answering the health check with 503 while still listening; origins are really stopped and restarted on the same port in phases (all down, primaries down, first down, random, recovery). After each change the driver waits for two health-check rounds observed after the change on a live server (11.5 s if none), then 12 sequential requests per group must go to healthy primaries, to healthy backups only when no primary is healthy, be balanced within 1 under round-robin, or fail with a 5xx within 2 s when nothing is healthy (a slow answer is retried before it is judged; also after 200 clients sent a request and went away at once); traffic must resume after recovery. Finally, with everything healthy, single requests fail for reasons that are not the server's (client gives up after 150 ms, location proxy timeout of 1.5 s) and one slow request is held on every primary of groups with backups: the following 12 requests are judged by the same rule.",
    "the upstream library's 5 s ticker has no clock seam (wall-clock bound); behaviour inside the unsettled window is not judged",
    "DESIGN.md 6/C19"),
  "C20": ("inproc", "exploration",
